@@ -23,7 +23,9 @@ RULE = (
     "the default choice are generated, written to a file and parsed with the real PumlParser; "
     "missing start/end tags must raise PumlParsingError; in addition every ordered pair of a pool of "
     "small two-component diagrams (aliases and component names drawn from one identifier pool) is "
-    "parsed back to back and the second result compared with its ground truth. A case is one diagram text; non-trivial = "
+    "parsed back to back and the second result compared with its ground truth; the small diagrams plus "
+    "a family of three-component diagrams (one or two arrows, third component isolated or attached, with and without alias) are "
+    "also evaluated as DiagramRule in both modes against four import relations and compared with the conformance verdict. A case is one diagram text; non-trivial = "
     "at least one arrow and at least one deviation"
 )
 ASSUMPTIONS = [
@@ -59,8 +61,9 @@ def plan(tier, seed):
     n = len(small_diagrams())
     for lo in range(0, n, 12):
         shards.append({"k": 0, "pairs": True, "lo": lo, "hi": lo + 12, "bound": f"ordered pairs of {n} small diagrams"})
+    n = len(rule_level_pool())
     for lo in range(0, n, 24):
-        shards.append({"k": 0, "rule_level": True, "lo": lo, "hi": lo + 24, "bound": f"DiagramRule verdicts for {n} small diagrams"})
+        shards.append({"k": 0, "rule_level": True, "lo": lo, "hi": lo + 24, "bound": f"DiagramRule verdicts for {n} small diagrams (two and three components)"})
     return {"shards": shards, "require_nonzero": ["parsed", "alias-ref", "dotted", "tags:PumlParsingError", "pair", "diagram-rule:PASS", "diagram-rule:FAIL"]}
 
 
@@ -160,6 +163,29 @@ def small_diagrams():
     return out
 
 
+def three_component_diagrams():
+    """Diagrams over three pool names: one or two arrows plus a component that only some arrows (or
+    none) touch, declared with and without alias.  Used by the rule-level part only: with three
+    components a component can have a drawn arrow AND an absent one.  -> list of (text, expected)."""
+    out = []
+    for a, b, c in itertools.permutations(POOL_NAMES[:3], 3):
+        for D in ([(a, b)], [(a, b), (c, a)], [(a, b), (a, c)]):
+            for with_alias in (False, True):
+                al = {c: POOL_NAMES[3]} if with_alias else {}
+                lines = [f"[{x}] as {al[x]}" if x in al else f"[{x}]" for x in (a, b, c)]
+                for s_, d_ in D:
+                    lines.append(f"{al.get(s_) or '[' + s_ + ']'} --> {al.get(d_) or '[' + d_ + ']'}")
+                deps = {}
+                for s_, d_ in D:
+                    deps.setdefault(s_, set()).add(d_)
+                out.append(("@startuml\n" + "\n".join(lines) + "\n@enduml\n", ({a, b, c}, deps)))
+    return out
+
+
+def rule_level_pool():
+    return small_diagrams() + three_component_diagrams()
+
+
 def run_pairs(shard, res, path):
     """Every ordered pair of small diagrams parsed one after the other in one process: the second
     result must be what the second text says, whatever was parsed before."""
@@ -195,7 +221,7 @@ def run_rule_level(shard, res, work):
     a, b, c = ns[1], ns[2], ns[3]
     relations = [[], [(a, b)], [(b, a), (a, c)], [(c, a), (c, b), (b, c)]]
     evs = [(I, arch(ns, I)) for I in relations]
-    pool = small_diagrams()
+    pool = rule_level_pool()
     shared = {so: DiagramRule(should_only_rule=so) for so in (True, False)}
     for i in range(shard["lo"], min(shard["hi"], len(pool))):
         txt, (mods, deps) = pool[i]
